@@ -5,13 +5,16 @@ Import ListNotations.
 Open Scope Z_scope.
 
 (* every state reachable from a fresh buffer, by any label list *)
-Definition reach (c : config) (t : str) (p : Z) (ls : list label) : state := run (init c t p) ls.
+Definition reachc (c : config) (t : str) (p : Z) (ls : list label) : state := run (init c t p) ls.
+(* ... in the code as it is now, and as it was at the pinned snapshot *)
+Definition reach (c : config) (t : str) (p : Z) (ls : list label) : state := reachc (current c) t p ls.
+Definition reach_pinned (c : config) (t : str) (p : Z) (ls : list label) : state := reachc (pinned c) t p ls.
 
-Lemma reach_Inv c t p ls : 0 <= p <= len t -> Inv (reach c t p ls).
+Lemma reachc_Inv c t p ls : 0 <= p <= len t -> Inv (reachc c t p ls).
 Proof. intros H. apply run_Inv. apply init_Inv. exact H. Qed.
 
-Lemma reach_cfg c t p ls : cfg (reach c t p ls) = c.
-Proof. unfold reach. rewrite cfg_run. reflexivity. Qed.
+Lemma reachc_cfg c t p ls : cfg (reachc c t p ls) = c.
+Proof. unfold reachc. rewrite cfg_run. reflexivity. Qed.
 
 Definition menu_consistent_at (s : state) : Prop :=
   forall cs, cst s = Some cs -> ntp cs = Some (text s, cur s).
@@ -28,18 +31,18 @@ Proof.
 Qed.
 
 Lemma menu_consistent_fixed c t p ls : 0 <= p <= len t -> fx c = true ->
-  menu_consistent_at (reach c t p ls).
+  menu_consistent_at (reachc c t p ls).
 Proof.
-  intros H Hf cs Hc. apply (Inv_fixed_menu (reach c t p ls)); auto using reach_Inv.
-  rewrite reach_cfg. exact Hf.
+  intros H Hf cs Hc. apply (Inv_fixed_menu (reachc c t p ls)); auto using reachc_Inv.
+  rewrite reachc_cfg. exact Hf.
 Qed.
 
 Lemma menu_consistent_ascoded c t p ls : 0 <= p <= len t ->
-  forall cs, cst (reach c t p ls) = Some cs ->
-    ntp cs = Some (text (reach c t p ls), cur (reach c t p ls)) \/ (fx c = false /\ broken cs).
+  forall cs, cst (reachc c t p ls) = Some cs ->
+    ntp cs = Some (text (reachc c t p ls), cur (reachc c t p ls)) \/ (fx c = false /\ broken cs).
 Proof.
-  intros H cs Hc. destruct (reach_Inv c t p ls H) as (_ & _ & _ & K).
-  destruct (K cs Hc) as (_ & [(_ & D)|D]); [left; exact D|right]. rewrite reach_cfg in D. exact D.
+  intros H cs Hc. destruct (reachc_Inv c t p ls H) as (_ & _ & _ & K).
+  destruct (K cs Hc) as (_ & [(_ & D)|D]); [left; exact D|right]. rewrite reachc_cfg in D. exact D.
 Qed.
 
 Definition w_cfg : config := mkcfg false false false 10000 false.
@@ -47,48 +50,48 @@ Definition w_labels : list label :=
   [StartCompletion 0; Tick; CYield 0 [97; 98] (-2); CompleteNext 1 false; CEnd 0].
 
 Lemma menu_consistent_refuted :
-  exists c t p ls, 0 <= p <= len t /\ fx c = false /\ ~ menu_consistent_at (reach c t p ls).
+  exists c t p ls, 0 <= p <= len t /\ fx c = false /\ ~ menu_consistent_at (reachc c t p ls).
 Proof.
   exists w_cfg, [97; 98], 2, w_labels. split; [unfold len; cbn; lia|]. split; [reflexivity|].
   intros H.
-  assert (E : exists cs, cst (reach w_cfg [97; 98] 2 w_labels) = Some cs /\ ntp cs = None).
+  assert (E : exists cs, cst (reachc w_cfg [97; 98] 2 w_labels) = Some cs /\ ntp cs = None).
   { vm_compute. eexists. split; reflexivity. }
   destruct E as (cs & E1 & E2). specialize (H cs E1). congruence.
 Qed.
 
-Lemma cancel_fixed c t p ls : 0 <= p <= len t -> fx c = true -> cancel_restores_at (reach c t p ls).
+Lemma cancel_fixed c t p ls : 0 <= p <= len t -> fx c = true -> cancel_restores_at (reachc c t p ls).
 Proof.
-  intros H Hf cs Hc. pose proof (reach_Inv c t p ls H) as HI.
-  destruct (Inv_fixed_menu _ cs HI) as (_ & N); [rewrite reach_cfg; exact Hf|exact Hc|].
+  intros H Hf cs Hc. pose proof (reachc_Inv c t p ls H) as HI.
+  destruct (Inv_fixed_menu _ cs HI) as (_ & N); [rewrite reachc_cfg; exact Hf|exact Hc|].
   destruct (cancel_menu _ cs HI Hc (ntp_some_not_broken _ _ N)) as (s' & Hs & _ & A & B & C).
   unfold apply. rewrite Hs. cbn [fst snd]. auto.
 Qed.
 
 Lemma cancel_ascoded c t p ls : 0 <= p <= len t ->
-  forall cs, cst (reach c t p ls) = Some cs -> ~ broken cs ->
-    snd (step (reach c t p ls) Cancel) = 0 /\ cst (apply (reach c t p ls) Cancel) = None /\
-    text (apply (reach c t p ls) Cancel) = dtext (cs_orig cs) /\
-    cur (apply (reach c t p ls) Cancel) = dcur (cs_orig cs).
+  forall cs, cst (reachc c t p ls) = Some cs -> ~ broken cs ->
+    snd (step (reachc c t p ls) Cancel) = 0 /\ cst (apply (reachc c t p ls) Cancel) = None /\
+    text (apply (reachc c t p ls) Cancel) = dtext (cs_orig cs) /\
+    cur (apply (reachc c t p ls) Cancel) = dcur (cs_orig cs).
 Proof.
-  intros H cs Hc Hb. pose proof (reach_Inv c t p ls H) as HI.
+  intros H cs Hc Hb. pose proof (reachc_Inv c t p ls H) as HI.
   destruct (cancel_menu _ cs HI Hc Hb) as (s' & Hs & _ & A & B & C).
   unfold apply. rewrite Hs. cbn [fst snd]. auto.
 Qed.
 
 Lemma cancel_refuted :
   exists c t p ls, 0 <= p <= len t /\ fx c = false /\
-    (exists cs, cst (reach c t p ls) = Some cs) /\ snd (step (reach c t p ls) Cancel) = 2.
+    (exists cs, cst (reachc c t p ls) = Some cs) /\ snd (step (reachc c t p ls) Cancel) = 2.
 Proof.
   exists w_cfg, [97; 98], 2, w_labels. split; [unfold len; cbn; lia|]. split; [reflexivity|].
   split; [vm_compute; eexists; reflexivity|vm_compute; reflexivity].
 Qed.
 
 Lemma completions_fresh c t p ls : 0 <= p <= len t ->
-  forall cs, cst (reach c t p ls) = Some cs ->
+  forall cs, cst (reachc c t p ls) = Some cs ->
     Forall (fresh (cs_orig cs) (cs_shift cs)) (cs_comps cs) /\
-    (cs_idx cs = None -> cs_orig cs = cur_doc (reach c t p ls)).
+    (cs_idx cs = None -> cs_orig cs = cur_doc (reachc c t p ls)).
 Proof.
-  intros H cs Hc. destruct (reach_Inv c t p ls H) as (_ & _ & _ & K).
+  intros H cs Hc. destruct (reachc_Inv c t p ls H) as (_ & _ & _ & K).
   destruct (K cs Hc) as ((_ & _ & F & _) & D). split; [exact F|].
   intros Hi. destruct D as [(_ & D)|(_ & _ & D)]; [|congruence].
   rewrite (ntp_none_idx cs Hi) in D. inversion D as [[D1 D2]]. unfold cur_doc. rewrite <- D1, <- D2.
@@ -96,24 +99,24 @@ Proof.
 Qed.
 
 Lemma verdict_fresh c t p ls : 0 <= p <= len t ->
-  vst (reach c t p ls) <> 0 ->
-  exists d, vsrc (reach c t p ls) = Some d /\ dtext d = text (reach c t p ls).
-Proof. intros H. destruct (reach_Inv c t p ls H) as ((_ & V & _) & _). exact V. Qed.
+  vst (reachc c t p ls) <> 0 ->
+  exists d, vsrc (reachc c t p ls) = Some d /\ dtext d = text (reachc c t p ls).
+Proof. intros H. destruct (reachc_Inv c t p ls H) as ((_ & V & _) & _). exact V. Qed.
 
 Lemma suggestion_fresh c t p ls : 0 <= p <= len t ->
-  forall sg d, sug (reach c t p ls) = Some (sg, d) -> dtext d = text (reach c t p ls).
-Proof. intros H. destruct (reach_Inv c t p ls H) as ((_ & _ & S) & _). exact S. Qed.
+  forall sg d, sug (reachc c t p ls) = Some (sg, d) -> dtext d = text (reachc c t p ls).
+Proof. intros H. destruct (reachc_Inv c t p ls H) as ((_ & _ & S) & _). exact S. Qed.
 
 Lemma single_flight c t p ls : 0 <= p <= len t ->
-  (length (ccos (reach c t p ls)) <= 1)%nat /\
-  (length (vcos (reach c t p ls)) <= 1)%nat /\
-  (length (scos (reach c t p ls)) <= 1)%nat /\
-  (crun (reach c t p ls) = false -> ccos (reach c t p ls) = []) /\
-  (vrun (reach c t p ls) = false -> vcos (reach c t p ls) = []) /\
-  (srun (reach c t p ls) = false -> scos (reach c t p ls) = []).
+  (length (ccos (reachc c t p ls)) <= 1)%nat /\
+  (length (vcos (reachc c t p ls)) <= 1)%nat /\
+  (length (scos (reachc c t p ls)) <= 1)%nat /\
+  (crun (reachc c t p ls) = false -> ccos (reachc c t p ls) = []) /\
+  (vrun (reachc c t p ls) = false -> vcos (reachc c t p ls) = []) /\
+  (srun (reachc c t p ls) = false -> scos (reachc c t p ls) = []).
 Proof.
-  intros H. destruct (reach_Inv c t p ls H) as (_ & (A & B & C) & _).
-  set (s := reach c t p ls) in *.
+  intros H. destruct (reachc_Inv c t p ls H) as (_ & (A & B & C) & _).
+  set (s := reachc c t p ls) in *.
   repeat split.
   - rewrite A; destruct (crun s); lia.
   - rewrite B; destruct (vrun s); lia.
@@ -125,36 +128,36 @@ Qed.
 
 (* cycling *)
 Lemma cycle_next c t p ls cs (k : nat) : 0 <= p <= len t ->
-  cst (reach c t p ls) = Some cs -> cs_idx cs = None -> Z.of_nat k < len (cs_comps cs) ->
-  let s' := run (reach c t p ls) (repeat (CompleteNext 1 false) (S k)) in
+  cst (reachc c t p ls) = Some cs -> cs_idx cs = None -> Z.of_nat k < len (cs_comps cs) ->
+  let s' := run (reachc c t p ls) (repeat (CompleteNext 1 false) (S k)) in
   cst s' = Some (cs_with_idx cs (Some (Z.of_nat k))) /\
   ntp (cs_with_idx cs (Some (Z.of_nat k))) = Some (text s', cur s').
 Proof.
-  intros H Hc Hi Hk. pose proof (reach_Inv c t p ls H) as HI.
-  assert (M : menu (reach c t p ls) cs).
+  intros H Hc Hi Hk. pose proof (reachc_Inv c t p ls H) as HI.
+  assert (M : menu (reachc c t p ls) cs).
   { split; [exact Hc|]. split; [unfold idx_ok; rewrite Hi; exact Logic.I|lia]. }
   destruct (next_visits _ cs k HI M Hi Hk) as (_ & (A & _) & B). split; auto.
 Qed.
 
 Lemma cycle_next_wraps c t p ls cs : 0 <= p <= len t ->
-  cst (reach c t p ls) = Some cs -> cs_idx cs = None -> 1 <= len (cs_comps cs) ->
-  let s' := run (reach c t p ls) (repeat (CompleteNext 1 false) (S (Z.to_nat (len (cs_comps cs))))) in
+  cst (reachc c t p ls) = Some cs -> cs_idx cs = None -> 1 <= len (cs_comps cs) ->
+  let s' := run (reachc c t p ls) (repeat (CompleteNext 1 false) (S (Z.to_nat (len (cs_comps cs))))) in
   cst s' = Some cs /\ text s' = dtext (cs_orig cs) /\ cur s' = dcur (cs_orig cs).
 Proof.
-  intros H Hc Hi Hn. pose proof (reach_Inv c t p ls H) as HI.
-  assert (M : menu (reach c t p ls) cs).
+  intros H Hc Hi Hn. pose proof (reachc_Inv c t p ls H) as HI.
+  assert (M : menu (reachc c t p ls) cs).
   { split; [exact Hc|]. split; [unfold idx_ok; rewrite Hi; exact Logic.I|lia]. }
   destruct (next_wraps _ cs HI M Hi) as (_ & (A & _) & B). split; auto.
 Qed.
 
 Lemma cycle_prev c t p ls cs (k : nat) : 0 <= p <= len t ->
-  cst (reach c t p ls) = Some cs -> cs_idx cs = None -> Z.of_nat k < len (cs_comps cs) ->
-  let s' := run (reach c t p ls) (repeat (CompletePrev 1 false) (S k)) in
+  cst (reachc c t p ls) = Some cs -> cs_idx cs = None -> Z.of_nat k < len (cs_comps cs) ->
+  let s' := run (reachc c t p ls) (repeat (CompletePrev 1 false) (S k)) in
   cst s' = Some (cs_with_idx cs (Some (len (cs_comps cs) - 1 - Z.of_nat k))) /\
   ntp (cs_with_idx cs (Some (len (cs_comps cs) - 1 - Z.of_nat k))) = Some (text s', cur s').
 Proof.
-  intros H Hc Hi Hk. pose proof (reach_Inv c t p ls H) as HI.
-  assert (M : menu (reach c t p ls) cs).
+  intros H Hc Hi Hk. pose proof (reachc_Inv c t p ls H) as HI.
+  assert (M : menu (reachc c t p ls) cs).
   { split; [exact Hc|]. split; [unfold idx_ok; rewrite Hi; exact Logic.I|lia]. }
   destruct (prev_visits _ cs k HI M Hi Hk) as (_ & (A & _) & B). split; auto.
 Qed.
@@ -164,14 +167,14 @@ Proof. destruct cs; reflexivity. Qed.
 
 (* previous undoes next and next undoes previous, from any selection *)
 Lemma next_prev_inverse c t p ls cs : 0 <= p <= len t ->
-  cst (reach c t p ls) = Some cs -> idx_ok cs -> 1 <= len (cs_comps cs) ->
-  let s1 := run (reach c t p ls) [CompleteNext 1 false; CompletePrev 1 false] in
-  let s2 := run (reach c t p ls) [CompletePrev 1 false; CompleteNext 1 false] in
+  cst (reachc c t p ls) = Some cs -> idx_ok cs -> 1 <= len (cs_comps cs) ->
+  let s1 := run (reachc c t p ls) [CompleteNext 1 false; CompletePrev 1 false] in
+  let s2 := run (reachc c t p ls) [CompletePrev 1 false; CompleteNext 1 false] in
   (cst s1 = Some cs /\ ntp cs = Some (text s1, cur s1)) /\
   (cst s2 = Some cs /\ ntp cs = Some (text s2, cur s2)).
 Proof.
-  intros H Hc Hok Hn. pose proof (reach_Inv c t p ls H) as HI.
-  set (s := reach c t p ls) in *.
+  intros H Hc Hok Hn. pose proof (reachc_Inv c t p ls H) as HI.
+  set (s := reachc c t p ls) in *.
   assert (M : menu s cs) by (split; [exact Hc|split; auto]).
   assert (Hi : match cs_idx cs with None => True | Some j => 0 <= j < len (cs_comps cs) end) by exact Hok.
   destruct (prev_next_idx (len (cs_comps cs)) (cs_idx cs) Hn Hi) as (P1 & P2).
@@ -186,4 +189,42 @@ Proof.
     destruct (complete_next_menu sa _ HIa Ma) as (sb & Hsb & _ & (Mb & _) & Nb).
     rewrite (apply_step _ _ _ _ Hsb). simp. rewrite cs_with_idx_idem in *. rewrite P2 in *.
     rewrite cs_with_idx_self in *. auto.
+Qed.
+
+(* --- the code as it is now, and the pinned snapshot ------------------------- *)
+Lemma menu_consistent c t p ls : 0 <= p <= len t -> menu_consistent_at (reach c t p ls).
+Proof. intros H. apply menu_consistent_fixed; [exact H|reflexivity]. Qed.
+
+Lemma cancel_restores c t p ls : 0 <= p <= len t -> cancel_restores_at (reach c t p ls).
+Proof. intros H. apply cancel_fixed; [exact H|reflexivity]. Qed.
+
+Lemma menu_consistent_pinned_partial c t p ls : 0 <= p <= len t ->
+  forall cs, cst (reach_pinned c t p ls) = Some cs ->
+    ntp cs = Some (text (reach_pinned c t p ls), cur (reach_pinned c t p ls)) \/ broken cs.
+Proof.
+  intros H cs Hc. destruct (menu_consistent_ascoded (pinned c) t p ls H cs Hc) as [A|(_ & A)]; auto.
+Qed.
+
+Lemma menu_consistent_pinned_refuted :
+  exists c t p ls, 0 <= p <= len t /\ ~ menu_consistent_at (reach_pinned c t p ls).
+Proof.
+  destruct menu_consistent_refuted as (c & t & p & ls & H & Hf & N).
+  exists c, t, p, ls. split; [exact H|]. unfold reach_pinned.
+  replace (pinned c) with c; [exact N|]. destruct c; cbn in *. subst. reflexivity.
+Qed.
+
+Lemma cancel_pinned_partial c t p ls : 0 <= p <= len t ->
+  forall cs, cst (reach_pinned c t p ls) = Some cs -> ~ broken cs ->
+    snd (step (reach_pinned c t p ls) Cancel) = 0 /\ cst (apply (reach_pinned c t p ls) Cancel) = None /\
+    text (apply (reach_pinned c t p ls) Cancel) = dtext (cs_orig cs) /\
+    cur (apply (reach_pinned c t p ls) Cancel) = dcur (cs_orig cs).
+Proof. intros H. apply cancel_ascoded. exact H. Qed.
+
+Lemma cancel_pinned_refuted :
+  exists c t p ls, 0 <= p <= len t /\
+    (exists cs, cst (reach_pinned c t p ls) = Some cs) /\ snd (step (reach_pinned c t p ls) Cancel) = 2.
+Proof.
+  destruct cancel_refuted as (c & t & p & ls & H & Hf & A & B).
+  exists c, t, p, ls. split; [exact H|]. unfold reach_pinned.
+  replace (pinned c) with c; [split; [exact A|exact B]|]. destruct c; cbn in *. subst. reflexivity.
 Qed.
